@@ -96,10 +96,8 @@ do {							\
 				}
 
 <STRING>[^\\\n\"]+		{
-	char *yptr = yytext;
-
-	while (*yptr)
-		yyextra->m_LexBuffer += *yptr++;
+	/* yytext may contain NUL bytes: copy yyleng bytes, not up to the first NUL */
+	yyextra->m_LexBuffer += String(yytext, yytext + yyleng);
 				}
 
 <STRING><<EOF>>			{
